@@ -172,6 +172,18 @@ for fnname in ("#time", "#timel"):
                 record("parser function", "parserfns:time_fn#bounded-no-raise", ex,
                        {"parser_function": fnname, "args": [letter, ts], "title": "Tt"})
     distinct.add(("time-letters", fnname))
+# formats with escapes and quotes at the edges (backslash last, backslash before a line break, unbalanced quotes)
+for fnname in ("#time", "#timel"):
+    for fmt_ in ("Y\\", "\\", "\\\n", "d \\", "\\Y\\", 'x\\', '"a', 'a"', '"', '\\"', "xx", "x", "%", "%Y %", "\\%"):
+        for ts in ("", "20130914013636", "@0"):
+            try:
+                call_pf(ctx, fnname, (fmt_, ts), "Tt")
+            except Timeout:
+                failures[(fnname, "timeout")] = {"ident": f"parserfns:{fnname}#bounded-terminates", "witness_class": "timeout",
+                                                 "what": f"{fnname}|{fmt_!r}|{ts} did not return", "witness": [fmt_, ts]}
+            except Exception as ex:
+                record("parser function", "parserfns:time_fn#bounded-no-raise", ex,
+                       {"parser_function": fnname, "args": [fmt_, ts], "title": "Tt"})
 # ---- (1c) #lst / #section with section names that contain regular-expression punctuation
 ctx.add_page("Langs", 0, "a<section begin=notes (old/>N<section end=notes (old/>b<section begin=C++/>cpp<section end=C++/>"
                          "<section begin=x/>X<section end=x/>")
